@@ -469,3 +469,98 @@ class TextRoundTrip(Harness):
 
 
 HARNESSES = [Overlap(), Distance(), Connect(), ConnectOrder(), Offset(), Extend(), Ordering(), TextRoundTrip()]
+
+
+class Helpers(Harness):
+    pid, name = "C04", "helpers"
+    functions = [M + "make_forwards", M + "remove_redundant_exons", M + "build_location_from_others", M + "location_bridges_origin",
+                 M + "split_origin_bridging_location", M + "location_contains_overlapping_exons"]
+    bound = "locations of 2-3 parts (ordered exons, origin-bridging, or arbitrary possibly nested parts for redundancy removal), either strand"
+    outside = "more than 3 parts; mixed strands"
+
+    def variants(self, tier):
+        out = []
+        for shape in ("j2", "j3", "o", "b"):
+            for strand in (1, -1):
+                out.append({"fn": "make_forwards", "shape": shape, "strand": strand})
+                out.append({"fn": "bridges", "shape": shape, "strand": strand})
+        for k in (2, 3):
+            out.append({"fn": "redundant", "k": k})
+            out.append({"fn": "build", "k": k})
+        return out
+
+    def vars(self, var):
+        d = {"n": "int", "x": "int"}
+        if var["fn"] in ("make_forwards", "bridges"):
+            d.update(shape_vars("a", var["shape"]))
+        else:
+            for i in range(var["k"]):
+                d["s%d" % i] = "int"
+                d["e%d" % i] = "int"
+        return d
+
+    def pre(self, var, v):
+        n = v["n"]
+        c = [0 <= v["x"], v["x"] < n]
+        if var["fn"] in ("make_forwards", "bridges"):
+            c.append(shape_pre("a", var["shape"], v, n))
+        else:
+            for i in range(var["k"]):
+                c += [0 <= v["s%d" % i], v["s%d" % i] < v["e%d" % i], v["e%d" % i] <= n]
+            if var["fn"] == "build":
+                # non-overlapping locations in ascending order (touching allowed: they are merged)
+                c += [v["e%d" % i] <= v["s%d" % (i + 1)] for i in range(var["k"] - 1)]
+        return L.And(c)
+
+    def run(self, var, v):
+        if var["fn"] == "make_forwards":
+            loc = build("a", var["shape"], v, var["strand"])
+            res = loc_mod.make_forwards(loc)
+            return {"parts": canon_loc(res), "input": canon_loc(loc)}
+        if var["fn"] == "bridges":
+            loc = build("a", var["shape"], v, var["strand"])
+            bridging = loc_mod.location_bridges_origin(loc)
+            out = {"bridging": bridging}
+            if bridging:
+                lower, upper = loc_mod.split_origin_bridging_location(loc)
+                out["lower"] = [(cn(p.start), cn(p.end)) for p in lower]
+                out["upper"] = [(cn(p.start), cn(p.end)) for p in upper]
+            return out
+        parts = [(v["s%d" % i], v["e%d" % i]) for i in range(var["k"])]
+        if var["fn"] == "redundant":
+            res = loc_mod.remove_redundant_exons(mkloc(parts, 1))
+        else:
+            res = loc_mod.build_location_from_others([FeatureLocation(s, e, 1) for s, e in parts])
+        return {"parts": canon_loc(res)}
+
+    def post(self, var, v, out):
+        if is_raised(out):
+            return [("no_raise", False)]
+        x = v["x"]
+        if var["fn"] == "make_forwards":
+            src = model_parts("a", var["shape"], v)
+            want_order = [(s, e) for s, e in src]     # biological order of the forward strand
+            res = out["parts"]
+            return [("same_bases", L.Iff(in_parts(x, src), in_parts(x, res))),
+                    ("forward_strand", all(p[2] == 1 for p in res)),
+                    ("parts_in_forward_reading_order", L.And(len(res) == len(want_order),
+                                                             [L.And(a[0] == b[0], a[1] == b[1]) for a, b in zip(res, want_order)]))]
+        if var["fn"] == "bridges":
+            expect = var["shape"] in ("o", "b")
+            cl = [("bridging_detected_iff_parts_out_of_strand_order", out["bridging"] == expect)]
+            if out["bridging"] and expect:
+                src = model_parts("a", var["shape"], v)
+                cl.append(("split_is_a_partition", L.And(len(out["lower"]) + len(out["upper"]) == len(src),
+                                                         L.Iff(in_parts(x, src), L.Or(in_parts(x, out["lower"]), in_parts(x, out["upper"]))))))
+                cl.append(("lower_section_lies_before_upper", L.And([lo[1] <= up[0] for lo in out["lower"] for up in out["upper"]])))
+            return cl
+        parts = [(v["s%d" % i], v["e%d" % i]) for i in range(var["k"])]
+        res = out["parts"]
+        if var["fn"] == "redundant":
+            return [("same_bases", L.Iff(in_parts(x, parts), in_parts(x, res))),
+                    ("no_kept_exon_inside_another", L.And([L.Not(L.And(a[0] >= b[0], a[1] <= b[1])) for a in res for b in res if a is not b]))]
+        return [("same_bases", L.Iff(in_parts(x, parts), in_parts(x, res))),
+                ("touching_locations_merged", L.And([a[1] < b[0] for a, b in zip(res, res[1:])]))]
+
+
+HARNESSES = [Overlap(), Distance(), Connect(), ConnectOrder(), Offset(), Extend(), Ordering(), TextRoundTrip(), Helpers()]
